@@ -19,7 +19,7 @@ contract('parso.python.errors.ErrorFinder.add_issue',
          requires=['(code == 901 and message.startswith("SyntaxError: ")) or '
                    '(code == 903 and message.startswith("IndentationError: "))',
                    'node is not None', 'self._error_dict is not None'],
-         ensures=['spos(node)[0] in self._error_dict',
+         ensures=['self._error_dict is not None', 'spos(node)[0] in self._error_dict',
                   'implies(old(spos(node)[0] in self._error_dict), self._error_dict[spos(node)[0]] == old(self._error_dict[spos(node)[0]]))',
                   'forall(lambda l: implies(l != spos(node)[0], (l in self._error_dict) == old(l in self._error_dict) and '
                   'implies(l in self._error_dict, self._error_dict[l] == old(self._error_dict[l]))))'],
